@@ -2,51 +2,65 @@ TECHNIQUE = ('bounded symbolic execution of LLVM IR lowered to C: CBMC/SAT (cadi
              'real ThreadPool with virtual workers (the harness calls the real consumer functions)')
 ASSUMPTIONS = [
     'moodycamel::ConcurrentQueue replaced by its contract model (shim/moodycamel, bounded FIFO)',
-    'detail::alignedMalloc/alignedFree replaced by their contract (typed fresh block)',
+    'detail::alignedMalloc/alignedFree replaced by their contract (typed fresh block); small-buffer allocator = malloc/free',
     'std::thread start/join modelled: pool threads never run by themselves; the harness performs a worker\'s or '
-    'waiter\'s consumption by calling the same real functions (tryExecuteNext, tryExecuteNextFromRings, '
-    'TaskSet::wait, threadLoopImpl)',
+    'waiter\'s consumption by calling the same real functions (tryExecuteNext, tryExecuteNextFromRings, threadLoopImpl)',
 ]
 OUTSIDE = ('API-call granularity: each API call of the history is atomic (interleavings inside the functions are outside); '
            'histories other than the listed scenario shapes (the shapes are fixed, their parameters - resize target, '
-           'which consumer acts, which worker sleeps - are symbolic); pool sizes > 2; steal-ring sharing 1 and spin '
-           'limits 1/2 are configuration bounds')
+           'which consumer acts, which worker sleeps - are symbolic); pool sizes > 2; steal-ring sharing 1, spin '
+           'limits 1/2 and DISPENSO_DISABLE_CASCADE_WAKERANGE (cascade-host wrappers exist only for pools with more '
+           'than one wake group) are configuration bounds')
 
 _SRC = ['dispenso/thread_pool.cpp', 'dispenso/thread_pool_wake.cpp', 'dispenso/detail/per_thread_info.cpp',
         'dispenso/task_set.cpp']
 _R16 = '_ZN8dispenso21ConcurrentObjectArenaINS_14MpmcRingBufferINS_12OnceFunctionELm16ELb1EEEmLm64EE7grow_byEm.4'
 _R4 = '_ZN8dispenso21ConcurrentObjectArenaINS_14MpmcRingBufferINS_12OnceFunctionELm4ELb1EEEmLm64EE7grow_byEm.4'
-_SCN = {
-    1: 'TaskSet::scheduleBulk(N) ring fast path; optional waiter steal (tryExecuteNextFromRings); resize(n\' != N, '
-       'n\' in 0..2 symbolic); ~TaskSet; schedule(FQ); waiter drain; ~ThreadPool',
-    2: 'worker w (symbolic) parks via enterSleep; schedulePlaced(FQ) claims it and pushes to its steal ring; then '
-       'symbolically either the worker runs the real threadLoopImpl (task stops it) or resize(n\' != N); ~ThreadPool',
-    3: 'schedule, schedule(FQ), scheduleBulk(2) ; optional waiter drain; resize(n\' != N symbolic); schedule, '
-       'schedulePlaced; waiter drain; ~ThreadPool',
-    4: 'three schedule(FQ) then a virtual worker runs the real threadLoopImpl<true> (batched decrement), the last '
-       'task stops it; ~ThreadPool',
+_RESIZE = '_ZN8dispenso10ThreadPool12resizeLockedEl'
+_DTOR = '_ZN8dispenso10ThreadPoolD2Ev'
+SCN = {
+    'ring_resize': (1, {}, 'TaskSet::scheduleBulk(N) ring fast path (task i in ring i); optional waiter steal '
+                           '(tryExecuteNextFromRings); resize(n\' != N, n\' in 0..2 symbolic)'),
+    'steal_resize': (2, {}, 'worker w (symbolic) parks via enterSleep; schedulePlaced(FQ) claims it and pushes to its '
+                            'steal ring; resize(n\' != N, symbolic)'),
+    'steal_worker': (2, {'VF_WORKER': 1}, 'worker w (symbolic) parks via enterSleep; schedulePlaced(FQ) claims it and '
+                                          'pushes to its steal ring; the worker runs the real threadLoopImpl<true> '
+                                          '(the task stops it)'),
+    'central': (3, {}, 'schedule, schedule(FQ), scheduleBulk(2); optional waiter drain; resize(n\' != N symbolic); '
+                       'schedule, schedulePlaced; waiter drain'),
+    'worker': (4, {}, 'three schedule(FQ), then a virtual worker runs the real threadLoopImpl<true> (batched '
+                      'decrement), the last task stops it'),
+    'overflow': (5, {}, 'ring 0 pre-filled to capacity (16 older tasks, real try_push); TaskSet::scheduleBulk(N) falls '
+                        'back to the central queue for ring 0; optional waiter steal / helper dequeue'),
 }
 
 
-def inst(scn, n, tiers, prop='VF_ACCT'):
+def inst(kind, n, tiers, prop='VF_ACCT', end=''):
+    scn, extra, text = SCN[kind]
+    defs = {'VF_N': n, 'VF_SCN': scn, 'VF_MQ_CAP': 6, prop: 1}
+    defs.update(extra)
     return {
-        'name': 'scn%d_n%d' % (scn, n), 'src': '../C08/hist.cpp', 'engine': 'cbmc', 'shims': ['moodycamel'],
+        'name': '%s_n%d' % (kind, n), 'src': '../C08/hist.cpp', 'engine': 'cbmc', 'shims': ['moodycamel'],
         'repo_sources': _SRC, 'rt_defs': {'VF_HAVE_THREAD_MODEL': 1}, 'models': ['aligned_alloc'],
-        'defs': {'VF_N': n, 'VF_SCN': scn, 'VF_MQ_CAP': 6, prop: 1, 'VF_NODTOR': 1},
+        'defs': defs,
         'cflags': ['-DDISPENSO_TUNE_STEAL_RING_SHARING=1', '-DDISPENSO_TUNE_FIXED_SPIN_ITERS=2',
-                   '-DDISPENSO_TUNE_SPIN_CHECK_INTERVAL=1', '-DDISPENSO_TUNE_QUEUE_CHECK_INTERVAL=1', '-DDISPENSO_DISABLE_CASCADE_WAKERANGE'],
-        'unwind': 3, 'nthreads': 1, 'spin_loops': True, 'unwindset': {_R16: 17, _R4: 5}, 'timeout': 900, 'tiers': tiers,
-        'bounds': 'ThreadPool(%d), model queue capacity 6, steal-ring capacity 4; history: %s' % (n, _SCN[scn]),
+                   '-DDISPENSO_TUNE_SPIN_CHECK_INTERVAL=1', '-DDISPENSO_TUNE_QUEUE_CHECK_INTERVAL=1',
+                   '-DDISPENSO_DISABLE_CASCADE_WAKERANGE'],
+        'unwind': 3, 'nthreads': 1, 'spin_loops': True, 'unwindset': {_R16: 17, _R4: 5},
+        'unwind_fn': {_RESIZE: 6, _DTOR: 6} if scn == 3 else ({_DTOR: 18} if scn == 5 else {}),
+        'timeout': 900, 'tiers': tiers,
+        'bounds': 'ThreadPool(%d), model queue capacity 6, steal-ring capacity 4; history: %s%s' % (n, text, end),
     }
 
 
 INSTANCES = [
-    inst(1, 1, ['quick', 'thorough']),
-    inst(2, 1, ['quick', 'thorough']),
-    inst(3, 1, ['quick', 'thorough']),
-    inst(4, 1, ['quick', 'thorough']),
-    inst(3, 0, ['quick', 'thorough']),
-    inst(1, 2, ['thorough']),
-    inst(2, 2, ['thorough']),
-    inst(3, 2, ['thorough']),
+    inst('ring_resize', 1, ['quick', 'thorough']),
+    inst('steal_resize', 1, ['quick', 'thorough']),
+    inst('steal_worker', 1, ['quick', 'thorough']),
+    inst('central', 1, ['quick', 'thorough']),
+    inst('worker', 1, ['quick', 'thorough']),
+    inst('central', 0, ['thorough']),
+    inst('ring_resize', 2, ['thorough']),
+    inst('steal_resize', 2, ['thorough']),
+    inst('central', 2, ['thorough']),
 ]
